@@ -15,6 +15,15 @@ def check(ctx):
     ctx.guard(_shared_c08, ctx)
     ctx.guard(_mixture, ctx)
     ctx.guard(r088_best_h, ctx)
+    ctx.guard(r089_eval_gap, ctx)
+    ctx.guard(r0810_linprog, ctx)
+    ctx.guard(r0811_setup, ctx)
+
+def _peel(o):
+    """(series, accessor) of the target of  series.at[k] = v / series.loc[k] = v / series[k] = v"""
+    o = root_of(o)
+    return (o.args[0], o.args[1]) if o.op == "attr" and o.args[1] in ("at", "loc", "iat", "iloc") else (o, None)
+
 
 def _no_lag(fq, depth):
     return not fq.startswith(M_LAG + ":")
@@ -175,9 +184,9 @@ def r081_082(ctx):
         lev = [x for x in r.events if x.kind == "loop" and x.data.get("lid") == e.loops[-1]][0]
         hs_index = A.at(post["weights_"], "self._hs.index") if "_hs" in post else None
         okp = (e.data["key"] is lev.data["elem"] and hs_index is not None and A.eq(lev.data["iter"], A.at(e, "self._hs.index"))
-               and any(A.C.canon(l) is A.C.canon(A.at(e, "K not in W.index", {"K": lev.data["elem"], "W": root_of(e.data["obj"])}))
-                       or (l.op == "not" and l.args[0].op == "cmp" and l.args[0].args[0] == "in") or
-                       (l.op == "cmp" and l.args[0] == "not in") for l in pc_literals(e.pc)))
+               and _peel(e.data["obj"])[1] in (None, "at", "loc")
+               and any(A.C.canon(l) is A.C.canon(A.at(e, "K not in W.index", {"K": lev.data["elem"], "W": _peel(e.data["obj"])[0]}))
+                       for l in pc_literals(e.pc)))
     ctx.ob("R08.4", fq, pads[0].node if pads else None, okp, "every predictor id missing from the selected Q gets weight 0.0",
            construct="weight padding")
     hs = post.get("_hs")
@@ -418,3 +427,227 @@ def r088_best_h(ctx):
     ret = r.ret
     ok = ret is not None and ret.op == "tuple" and len(ret.args[0]) == 2 and ret.args[0][0].op == "sub" and ret.args[0][0].args[1] is ret.args[0][1]
     ctx.ob("R08.8", fq, None, ok, "best_h returns (hs[best_idx], best_idx)", construct="best_h return")
+
+
+def r089_eval_gap(ctx):
+    ctx.rule("R08.9", "eval_gap: the best response at lambda_hat itself (multiplier 1) is evaluated before any exit of the "
+                      "multiplier loop; each candidate is the point mass Series({idx: 1.0}) on the index best_h returned for "
+                      "mul * lambda_hat; so L_low <= L(best response at lambda_hat, lambda_hat) and the gap is never understated")
+    A3 = Analysis(ctx, max_depth=2, no_inline=[LAG + "._eval", LAG + ".best_h"])
+    rv = A3.run(LAG + ".eval_gap", cls_ctx=LAG)
+    fq = rv.func
+    P = rv.params
+    loops = [e for e in rv.events if e.kind == "loop" and e.func == fq]
+    ctx.require(len(loops) == 1, "anchor vanished: multiplier loop of eval_gap")
+    L = loops[0]
+    it = L.data["iter"]
+    vals = None
+    if it.op in ("list", "tuple"):
+        vals = [const_value(x) if x.op == "const" else None for x in it.args[0]]
+    ok = bool(vals) and vals[0] is not None and vals[0] == 1
+    ctx.ob("R08.9", fq, L.node, ok, f"the multipliers are the literal sequence {vals}; the first one is 1" if ok else
+           f"the first multiplier tried is not 1 ({show(it, maxdepth=3)[:60]}): the best response at lambda_hat is not (or not "
+           "first) evaluated, so L_low can exceed the true minimum and the gap is understated", construct="multiplier sequence")
+    lid = L.data["lid"]
+    body = [e for e in rv.events if e.loops and e.loops[0] == lid]
+    bh = [e for e in body if e.kind == "call" and e.data.get("callee") == LAG + ".best_h"]
+    evs = [e for e in body if e.kind == "call" and e.data.get("callee") == LAG + "._eval"]
+    ok = len(bh) == 1 and len(evs) == 1 and A3.eq(arg(bh[0], 0), A3.spec("m * lam", {"m": L.data["elem"], "lam": P["lambda_hat"]}))
+    ctx.ob("R08.9", fq, bh[0].node if bh else L.node, ok, "the best response is computed for mul * lambda_hat",
+           construct="best response argument")
+    if len(bh) == 1 and len(evs) == 1:
+        want = A3.spec("pd.Series({i: 1.0})", {"pd": glob("pandas"), "i": mk("sub", bh[0].data["result"], const(1))})
+        want2 = A3.spec("pd.Series({i: 1})", {"pd": glob("pandas"), "i": mk("sub", bh[0].data["result"], const(1))})
+        q = arg(evs[0], 0)
+        ok = q is want or q is want2 or A3.eq(q, want)
+        ctx.ob("R08.9", fq, evs[0].node, ok, "the candidate is the point mass on the returned predictor index" if ok else
+               f"the candidate evaluated for L_low is {show(q, maxdepth=4)[:100]}, not the point mass Series({{idx: 1.0}})",
+               construct="point-mass candidate")
+    low = [e for e in body if e.kind == "store" and e.data.get("tkind") == "attr" and e.data["attr"] == "L_low"]
+    exits = [e for e in body if e.kind in ("break", "return", "continue", "raise") and e.func == fq]
+    ok = bool(low) and all(x.seq > max(l.seq for l in low) for x in exits)
+    ctx.ob("R08.9", fq, (exits[0].node if exits else L.node), ok, f"all {len(exits)} exits of the multiplier loop come after the "
+           "L_low update of the same iteration", construct="exit after update")
+
+
+def r0810_linprog(ctx):
+    ctx.rule("R08.10", "solve_linprog: primal min (errors, B).(Q, t) s.t. (gammas - bound) Q - t <= 0, sum Q = 1, x >= 0; Q = x[:-1] "
+                       "on hs.index; the dual is its transpose (c = (b_ub, -b_eq), A = (-A_ub^T | A_eq^T), b = primal c, "
+                       "multipliers >= 0, equality multiplier free); lambda = x_dual[:-1] on constraints.index; the result is "
+                       "(Q, lambda, eval_gap(Q, lambda, nu)) and is cached only for an unchanged number of predictors")
+    A = Analysis(ctx, max_depth=2, no_inline=[LAG + ".eval_gap"])
+    rl = A.run(LAG + ".solve_linprog", cls_ctx=LAG)
+    fq = rl.func
+    np_ = {"np": glob("numpy"), "pd": glob("pandas")}
+    lp = [e for e in rl.events if e.kind == "call" and e.data.get("callee") == "scipy.optimize.linprog"]
+    ctx.require(len(lp) == 2, "anchor vanished: the two linprog calls")
+    prim, dual = lp
+    n = A.at(prim, "len(self.constraints.index)")
+    b = dict(np_, n=n)
+    okb = kw(prim, "b_ub") is not None and A.eq(kw(prim, "b_ub"), A.spec("np.zeros(n)", b))
+    ctx.ob("R08.10", fq, prim.node, okb, "the inequality right-hand side is zero", construct="LP b_ub")
+    ok = kw(prim, "bounds") is None
+    ctx.ob("R08.10", fq, prim.node, ok, "the primal variables keep linprog's default bounds (x >= 0)", construct="LP primal bounds")
+    bq = dict(np_, R=prim.data["result"], S=rl.self_term)
+    qs = [e for e in rl.events if e.kind == "call" and e.data.get("callee") == "pandas.Series" and e.func == fq]
+    Qw = A.spec("pd.Series(R.x[:-1], S.hs.index)", bq)
+    Qw2 = A.spec("pd.Series(R.x[:-1], index=S.hs.index)", bq)
+    Qe = [e for e in qs if contains(e.data["result"], lambda s: s is prim.data["result"]) and not contains(e.data["result"], lambda s: s is dual.data["result"])]
+    ok = len(Qe) == 1 and (Qe[0].data["result"] is Qw or Qe[0].data["result"] is Qw2)
+    ctx.ob("R08.10", fq, Qe[0].node if Qe else prim.node, ok, "Q is the primal solution without the slack variable, labelled by "
+           "the predictor ids" if ok else f"Q is {show(Qe[0].data['result'], maxdepth=3)[:120] if Qe else '?'}", construct="LP Q")
+    if not (kw(prim, "A_ub") is not None and kw(prim, "A_eq") is not None and kw(prim, "b_eq") is not None and kw(prim, "b_ub") is not None):
+        ctx.ob("R08.10", fq, prim.node, False, "the primal LP lacks A_ub / b_ub / A_eq / b_eq", construct="LP primal keywords")
+        return
+    bd = dict(np_, c=arg(prim, 0), A_ub=kw(prim, "A_ub"), b_ub=kw(prim, "b_ub"), A_eq=kw(prim, "A_eq"), b_eq=kw(prim, "b_eq"), n=n)
+    okd = A.eq(arg(dual, 0), A.spec("np.concatenate((b_ub, -b_eq))", bd))
+    ctx.ob("R08.10", fq, dual.node, okd, "dual objective = (b_ub, -b_eq)", construct="dual objective")
+    okd = kw(dual, "A_ub") is not None and A.eq(kw(dual, "A_ub"), A.spec("np.concatenate((-A_ub.transpose(), A_eq.transpose()), axis=1)", bd))
+    ctx.ob("R08.10", fq, dual.node, okd, "dual rows = (-A_ub^T | A_eq^T)", construct="dual matrix")
+    okd = kw(dual, "b_ub") is not None and A.eq(kw(dual, "b_ub"), bd["c"]) and kw(dual, "A_eq") is None
+    ctx.ob("R08.10", fq, dual.node, okd, "dual right-hand side = primal objective", construct="dual rhs")
+    wantb = A.spec("[(None, None) if i == n else (0, None) for i in range(n + 1)]", bd)
+    wantb2 = A.spec("[(0, None)] * n + [(None, None)]", bd)
+    gb = kw(dual, "bounds")
+    okd = gb is not None and (gb is wantb or A.eq(gb, wantb) or A.eq(gb, wantb2))
+    ctx.ob("R08.10", fq, dual.node, okd, "the n multipliers are non-negative and the multiplier of the simplex row is free" if okd else
+           f"dual bounds are {show(gb, maxdepth=4)[:120] if gb is not None else 'missing'}", construct="dual bounds")
+    bl = dict(np_, R=dual.data["result"], S=rl.self_term)
+    Lw = (A.spec("pd.Series(R.x[:-1], S.constraints.index)", bl), A.spec("pd.Series(R.x[:-1], index=S.constraints.index)", bl))
+    Le = [e for e in qs if contains(e.data["result"], lambda s: s is dual.data["result"])]
+    ok = len(Le) == 1 and Le[0].data["result"] in Lw
+    ctx.ob("R08.10", fq, Le[0].node if Le else dual.node, ok, "lambda is the dual solution without the free multiplier, labelled by "
+           "the constraint index", construct="LP lambda")
+    if not (Qe and Le):
+        return
+    Q, lam = Qe[0].data["result"], Le[0].data["result"]
+    eg = calls_to(rl, LAG + ".eval_gap")
+    ok = len(eg) == 1 and arg(eg[0], 0, "Q") is Q and arg(eg[0], 1, "lambda_hat") is lam and arg(eg[0], 2, "nu") is rl.params["nu"]
+    ctx.ob("R08.10", fq, eg[0].node if eg else None, ok, "the LP pair is certified by eval_gap(Q, lambda, nu)", construct="LP certificate")
+    fresh = [(pc, v) for pc, v in rl.returns if not (v.op == "attr" and v.args[1] == "last_linprog_result")]
+    cached = [(pc, v) for pc, v in rl.returns if v.op == "attr" and v.args[1] == "last_linprog_result" and v.args[0] is rl.self_term]
+    want = mk("tuple", (Q, lam, eg[0].data["result"])) if eg else None
+    st = stores_attr(rl, "last_linprog_result")
+    okr = len(fresh) == 1 and eg and (fresh[0][1] is want or (st and fresh[0][1] is st[-1].data["value"] and st[-1].data["value"] is want))
+    ctx.ob("R08.10", fq, None, bool(okr), "the fresh result is (Q, lambda, certificate) in that order", construct="LP result tuple")
+    nh = A.entry(rl, "len(self.hs)")
+    okc = True
+    for pc, v in cached:
+        lits = [A.C.canon(x) for x in pc_literals(pc)]
+        okc = okc and A.C.canon(A.entry(rl, "self.last_linprog_n_hs == len(self.hs)")) in lits
+    sn = stores_attr(rl, "last_linprog_n_hs")
+    okc = okc and len(sn) == 1 and A.eq(sn[0].data["value"], nh) and len(st) == 1 and (want is None or st[0].data["value"] is want) \
+        and len(sn[0].pc) == len(st[0].pc)
+    ctx.ob("R08.10", fq, None, okc, f"the cached result ({len(cached)} exit) is returned only when the number of predictors is "
+           "unchanged, and the cache key and value are stored together", construct="LP cache")
+
+
+def r0811_setup(ctx):
+    ctx.rule("R08.11", "_Lagrangian.__init__ loads the caller's data into the constraints and into the objective (the constraints' "
+                       "default objective unless one of the same moment type is given); fit records lambda_t in lambda_vecs_EG_[t] "
+                       "before averaging and the LP multiplier in lambda_vecs_LP_[t]; nu is assigned only when it was None; new "
+                       "predictor ids start with count 0 in Qsum; sample_weight_name is passed on")
+    A = Analysis(ctx, max_depth=1, inline=lambda fq, d: False)
+    ri = A.run(LAG + ".__init__", cls_ctx=LAG)
+    fq = ri.func
+    P = ri.params
+    loads = [e for e in ri.events if e.kind == "call" and e.data["fterm"].op == "attr" and e.data["fterm"].args[1] == "load_data"]
+    def is_data_call(e):
+        kws = dict(e.data["kwargs"])
+        return arg(e, 0, "X") is P["X"] and arg(e, 1, "y") is P["y"] and kws.get("**") is P["kwargs"]
+    cons = [e for e in loads if e.data["fterm"].args[0] is P["constraints"] or A.eq(e.data["fterm"].args[0], P["constraints"])]
+    ok = len(cons) == 1 and is_data_call(cons[0]) and not cons[0].pc
+    ctx.ob("R08.11", fq, cons[0].node if cons else None, ok, "constraints.load_data(X, y, **kwargs) is called unconditionally",
+           construct="constraints loaded")
+    obj = ri.final.heap.get((ri.self_term, "obj")) if ri.final is not None else None
+    want = mk("ite", A.entry(ri, "objective is None"), A.entry(ri, "constraints.default_objective()"), P["objective"])
+    oko = obj is not None and (A.eq(obj, want) or _ite_equal(A, obj, A.entry(ri, "objective is None"), A.entry(ri, "constraints.default_objective()"), P["objective"]))
+    ctx.ob("R08.11", fq, None, oko, "obj = constraints.default_objective() when objective is None, else the given objective" if oko else
+           f"obj is {show(obj, maxdepth=4)[:120] if obj is not None else 'not stored'}", construct="objective choice")
+    objl = [e for e in loads if e not in cons]
+    ok = len(objl) == 1 and is_data_call(objl[0]) and obj is not None and A.eq(objl[0].data["fterm"].args[0], obj)
+    ctx.ob("R08.11", fq, objl[0].node if objl else None, ok, "obj.load_data(X, y, **kwargs) loads the same data into the objective",
+           construct="objective loaded")
+    raises = [e for e in ri.events if e.kind == "raise"]
+    mt = A.C.canon(A.entry(ri, "objective._moment_type() == constraints._moment_type()"))
+    ok = bool(raises) and all(any(A.C.canon(l) is A.C._not(mt) for l in pc_literals(e.pc)) for e in raises)
+    ctx.ob("R08.11", fq, raises[0].node if raises else None, ok, "an objective of a different moment type is refused",
+           construct="objective type check")
+    for a in ("B", "opt_lambda", "estimator", "sample_weight_name"):
+        v = ri.final.heap.get((ri.self_term, a)) if ri.final is not None else None
+        ctx.ob("R08.11", fq, None, v is P[a], f"self.{a} is the constructor argument", construct=f"Lagrangian.{a}")
+    # ---- fit records
+    A2 = Analysis(ctx, inline=_no_lag, max_depth=3)
+    r = A2.run(EG + ".fit", cls_ctx=EG)
+    fq = r.func
+    lag = [e for e in r.events if e.kind == "call" and e.data.get("constructs") == LAG]
+    ctx.require(len(lag) == 1, "anchor vanished: _Lagrangian construction")
+    ok = A2.eq(kw(lag[0], "sample_weight_name"), A2.at(lag[0], "self.sample_weight_name")) and dict(lag[0].data["kwargs"]).get("**") is r.params.get("kwargs")
+    ctx.ob("R08.11", fq, lag[0].node, ok, "sample_weight_name and the extra fit keywords are passed to the Lagrangian",
+           construct="Lagrangian keyword pass-through")
+    loopev = [e for e in r.events if e.kind == "loop" and contains(e.data["iter"], lambda s: s.op == "attr" and s.args[1] == "max_iter")][0]
+    lid = loopev.data["lid"]
+    t = loopev.data["elem"]
+    body = [e for e in r.events if e.loops and e.loops[0] == lid]
+    bh = [e for e in body if e.kind == "call" and e.data["fterm"].op == "boundmethod" and e.data["fterm"].args[1].endswith(".best_h")]
+    eg = [e for e in body if e.kind == "call" and e.data["fterm"].op == "boundmethod" and e.data["fterm"].args[1].endswith(".eval_gap")]
+    ctx.require(len(bh) == 1 and len(eg) == 1, "anchor vanished: best_h / eval_gap in the loop")
+    lam = arg(bh[0], 0)
+    rec = [e for e in body if e.kind == "store" and e.data.get("tkind") == "sub" and e.func == fq and e.data["key"] is t
+           and e.data["value"] is lam and len(e.loops) == 1 and not [l for l in pc_literals(e.pc) if l.op != "inloop"]]
+    lam_eg = arg(eg[0], 1)
+    ok = len(rec) == 1 and rec[0].seq < eg[0].seq and lam_eg.op == "call" and lam_eg.args[0].op == "attr" \
+        and contains(lam_eg.args[0].args[0], lambda s: s.op == "upd" and s.args[1] is t and s.args[2] is lam)
+    ctx.ob("R08.11", fq, rec[0].node if rec else eg[0].node, ok, "lambda_t is stored as column t of the frame whose row mean is "
+           "lambda_EG, before the mean is taken" if ok else "the multiplier of this iteration is not recorded in the averaged frame "
+           "before eval_gap: the certificate refers to a multiplier vector that is not the recorded one", construct="lambda_EG record")
+    ok = ok and rec and root_of(rec[0].data["obj"]) is not None
+    lp = [e for e in body if e.kind == "call" and e.data["fterm"].op == "boundmethod" and e.data["fterm"].args[1].endswith(".solve_linprog")]
+    if lp:
+        res = lp[0].data["result"]
+        st = [e for e in body if e.kind == "store" and e.data.get("tkind") == "sub" and e.func == fq and e.data["value"] is mk("sub", res, const(1))]
+        ok = len(st) == 1 and st[0].data["key"] is t
+        ctx.ob("R08.11", fq, lp[0].node, ok, "the LP multiplier (second component of solve_linprog) is recorded as lambda_vecs_LP_[t]",
+               construct="lambda_LP record")
+    # nu assigned only when None
+    for e in [x for x in r.events if x.kind == "store" and x.data.get("tkind") == "attr" and x.data["attr"] == "nu" and x.data["obj"] is r.self_term]:
+        raw = mk("attr", r.self_term, "nu")
+
+        def _nu_is_none(l):
+            l = A2.C.canon(l)
+            if not (l.op == "cmp" and l.args[0] == "is" and NONE in (l.args[1], l.args[2])):
+                return False
+            x = l.args[1] if l.args[2] is NONE else l.args[2]
+            return x is raw or (x.op == "loopvar" and x.args[2] is raw)
+        ok = any(_nu_is_none(l) for l in pc_literals(e.pc))
+        ctx.ob("R08.11", fq, e.node, ok, "nu is given its default only when the caller requested none" if ok else
+               "self.nu is overwritten although the caller requested a threshold: 'stops early => best_gap_ < requested nu' is lost",
+               construct="nu default guard")
+    # Qsum: new ids start at 0
+    hidx = mk("sub", bh[0].data["result"], const(1))
+    init = [e for e in body if e.kind == "store" and e.data.get("tkind") == "sub" and e.func == fq and e.data["key"] is hidx
+            and e.data["value"].op == "const"]
+    def _series(o):
+        o = root_of(o)
+        return (o.args[0], o.args[1]) if o.op == "attr" and o.args[1] in ("at", "loc", "iat", "iloc") else (o, None)
+    ok = len(init) == 1 and const_value(init[0].data["value"]) == 0 and _series(init[0].data["obj"])[1] in (None, "at", "loc") and any(
+        A2.C.canon(l) is A2.C.canon(A2.spec("k not in q.index", {"k": hidx, "q": _series(init[0].data["obj"])[0]})) for l in pc_literals(init[0].pc))
+    ctx.ob("R08.11", fq, init[0].node if init else None, ok, "a predictor id seen for the first time starts with count 0",
+           construct="Qsum initial count")
+
+
+def _ite_equal(A, v, c, a, b):
+    cv = A.C.canon(v)
+    return cv.op == "ite" and ((cv.args[0] is A.C.canon(c) and A.eq(cv.args[1], a) and _leaf_or(A, cv.args[2], b)) or
+                               (cv.args[0] is A.C._not(A.C.canon(c)) and A.eq(cv.args[2], a) and _leaf_or(A, cv.args[1], b)))
+
+
+def _leaf_or(A, v, b):
+    """v is b, or ite(_, b, <undefined / raising path>)"""
+    if A.eq(v, b):
+        return True
+    cv = A.C.canon(v)
+    if cv.op == "ite":
+        alts = [x for x in (cv.args[1], cv.args[2]) if x.op not in ("undef", "noreturn") and not (x.op == "attr" and x.args[1] == "obj")]
+        return len(alts) == 1 and A.eq(alts[0], b)
+    return False
